@@ -142,7 +142,7 @@ example :
 
 /-! ## A4  ifon / ifoff -/
 
-/-- **`_process_ifonoff` runs the body only when the plug's known state matches.**  `nodeState d a (ctxNode e.plugs)`
+/-- **`_process_ifonoff` runs the body only when the plug's known state matches.**  `nodeState d a.arglist (ctxNode e.plugs)`
     is the state this action's argument list holds for the node of the context's (first) plug — `unknown` when there
     is no plug, no node or no such argument.  On entry (`processing` clear):
     * state `on` for `ifon` / `off` for `ifoff`: the body is pushed as a new context with the same plugs;
@@ -151,16 +151,16 @@ example :
     Conversely the stack grows only in the first case.  On return from the body (`processing` set) the flag is
     cleared and nothing else happens. -/
 theorem C08_if_only_when_state_matches (d : Dev) (a : Action) (o : Oracle) (e : ExecCtx) (body : List Stmt) (wantOn : Bool) :
-    (e.processing = false → nodeState d a (ctxNode e.plugs) = (if wantOn then .on else .off) →
+    (e.processing = false → nodeState d a.arglist (ctxNode e.plugs) = (if wantOn then .on else .off) →
       (stmtIf d a o e body wantOn).act =
         { a with exec := bodyCtx body (some (e.plugs.getD [])) :: { e with processing := true } :: a.exec.drop 1 }) ∧
-    (e.processing = false → nodeState d a (ctxNode e.plugs) = (if wantOn then .off else .on) →
+    (e.processing = false → nodeState d a.arglist (ctxNode e.plugs) = (if wantOn then .off else .on) →
       (stmtIf d a o e body wantOn).act = a) ∧
-    (e.processing = false → nodeState d a (ctxNode e.plugs) = .unknown →
+    (e.processing = false → nodeState d a.arglist (ctxNode e.plugs) = .unknown →
       (stmtIf d a o e body wantOn).act = { a with errnum := .expfail }) ∧
     (e.processing = true → (stmtIf d a o e body wantOn).act = setTop a { e with processing := false }) ∧
     (a.exec ≠ [] → (stmtIf d a o e body wantOn).act.exec.length > a.exec.length →
-      e.processing = false ∧ nodeState d a (ctxNode e.plugs) = (if wantOn then .on else .off)) ∧
+      e.processing = false ∧ nodeState d a.arglist (ctxNode e.plugs) = (if wantOn then .on else .off)) ∧
     ((stmtIf d a o e body wantOn).dev = d ∧ (stmtIf d a o e body wantOn).oracle = o ∧
       (stmtIf d a o e body wantOn).out = [] ∧ (stmtIf d a o e body wantOn).finished = true) :=
   ⟨stmtIf_taken d a o e body wantOn, stmtIf_skipped d a o e body wantOn, stmtIf_unknown d a o e body wantOn,
@@ -172,7 +172,7 @@ example :
                      xmStr := none, xmOffs := [], xmResult := false, xmUsed := false,
                      args := [(3, [⟨[110, 49], none, .on, .none⟩])], nextUid := 0, shortCircuitDelay := false }
     let a : Action := { (default : Action) with arglist := 3 }
-    nodeState d a (ctxNode (some [⟨[112, 49], some [110, 49]⟩])) = .on := by decide
+    nodeState d a.arglist (ctxNode (some [⟨[112, 49], some [110, 49]⟩])) = .on := by decide
 
 /-! ## A5  setplugstate / setresult -/
 
